@@ -303,6 +303,19 @@ func c16TieCases() []*pairCase {
 		}
 		add("Linux", "linux-equivalent-spellings-many-rules", lin(dl...), map[string]string{"router": lin(tl...)})
 	}
+	// Routes: many to delete, many to add, some replaced (same destination,
+	// other hop); the order of the route commands must not vary.
+	{
+		dr, tr := "", ""
+		for i := 1; i <= 6; i++ {
+			dr += fmt.Sprintf("ip route add 10.%d.0.0/16 via 10.1.2.3\n", 30+i) // only on device
+			tr += fmt.Sprintf("ip route add 10.%d.0.0/16 via 10.1.2.4\n", 50+i) // only in target
+			dr += fmt.Sprintf("ip route add 10.%d.0.0/16 via 10.1.2.3\n", 70+i) // replaced
+			tr += fmt.Sprintf("ip route add 10.%d.0.0/16 via 10.1.2.5\n", 70+i)
+		}
+		add("Linux", "linux-routes-many-deleted-added-replaced", lin("-A INPUT -j c1")+dr,
+			map[string]string{"router": lin("-A INPUT -j c1") + tr})
+	}
 	add("Linux", "linux-raw-adds-several-tables-and-chains",
 		lin("-A INPUT -j c1"),
 		map[string]string{"router": lin("-A INPUT -j c1"),
